@@ -7,7 +7,10 @@ import (
 	"testing"
 	"time"
 
+	v1 "k8s.io/api/core/v1"
+
 	"verif/h"
+	"verif/ref"
 	"verif/sim"
 )
 
@@ -45,6 +48,74 @@ func (m LikeAnyOther) AfterScan(ctx *h.ScanCtx) []h.Violation {
 	return out
 }
 
+// HeldBack: a protected node "does not hold back the removal of other eligible nodes". In a fault-free,
+// unlocked scan whose reference decision is a scale-down or no action (the scans in which the
+// grace-period reaper is certain to run), with a protected tainted node in the view, every unprotected
+// tainted node that is past its grace period (soft and empty, or hard) must be terminated, provided
+// the batch of all such nodes fits above the cloud minimum.
+type HeldBack struct{ lock lockTracker }
+
+func (m *HeldBack) Key() string { return m.lock.key() }
+func (m *HeldBack) AfterScan(ctx *h.ScanCtx) []h.Violation {
+	var out []h.Violation
+	if m.lock.a == nil || ctx.Fresh {
+		m.lock.reset()
+	}
+	m.lock.now = ctx.Start
+	defer m.lock.observe(ctx)
+	clean := ctx.Res.Err == nil && ctx.Res.Panic == nil && !ctx.Res.Killed && !ctx.Res.Exit && !ctx.Res.Hang
+	if !clean || ctx.Faulted {
+		return nil
+	}
+	for _, g := range ctx.Groups {
+		if g.Dry || m.lock.inWindow(g, ctx.Start) || len(g.F) > 0 {
+			continue
+		}
+		dec := ref.Decide(g, ctx.Start)
+		if dec.Starve || dec.MaxAge || dec.Edge != "" || (dec.Class != "fast" && dec.Class != "slow" && dec.Class != "idle") {
+			continue
+		}
+		a := ctx.H.W.FindASG(g.ASGName)
+		if a == nil {
+			continue
+		}
+		soft, hard := softOf(g.Spec), hardOf(g.Spec)
+		protected := 0
+		var eligible []*v1.Node
+		for _, n := range g.T {
+			tt, readable := h.TaintTime(n)
+			age := ctx.Start.Sub(tt)
+			if n.Annotations[h.NoDeleteKey] != "" {
+				protected++
+				continue
+			}
+			if readable && (age > hard || (age > soft && g.PodsOn[n.Name] == 0)) {
+				eligible = append(eligible, n)
+			}
+		}
+		if protected == 0 || len(eligible) == 0 || g.CloudDesired-int64(len(eligible)) < g.CloudMin {
+			continue
+		}
+		ctx.H.Cov["c10.eligible-next-to-protected"]++
+		terminated := map[string]bool{}
+		for _, e := range ctx.Entries {
+			if e.Op == sim.OpTerminate && e.Err == "" {
+				if _, n := ctx.NodeOfInstance(e.Target); n != nil {
+					terminated[n.Name] = true
+				}
+			}
+		}
+		for _, n := range eligible {
+			if !terminated[n.Name] {
+				out = append(out, h.Violation{Prop: "C10", Sig: "C10/eligible-node-held-back",
+					Msg: fmt.Sprintf("scan %d: group %s (%s) holds %d protected tainted node(s); %s is unprotected, past its grace period and removable (desired %d - %d eligible >= cloud minimum %d) but was not terminated", ctx.Scan, g.Name, dec.Class, protected, n.Name, g.CloudDesired, len(eligible), g.CloudMin)})
+				break
+			}
+		}
+	}
+	return out
+}
+
 func c10Scenario(name string, strip bool, minNodes int, world string) *h.Scenario {
 	g := StdGroup("g1")
 	g.Opts.MinNodes = minNodes
@@ -74,6 +145,14 @@ func c10Scenario(name string, strip bool, minNodes int, world string) *h.Scenari
 			hh.W.AddNode(a, sim.NodeOpt{Age: 18 * Q, TaintAge: dp(0)})
 			hh.W.AddNode(a, sim.NodeOpt{Age: 17 * Q, TaintAge: dp(1 * Q), Annotation: ann("keep")})
 			hh.W.AddNode(a, sim.NodeOpt{Age: 16 * Q})
+		case "tight-room":
+			// the cloud group can lose exactly one node; the protected node has been tainted longest
+			n1 := hh.W.AddNode(a, sim.NodeOpt{Age: 20 * Q})
+			hh.W.AddPod(podOn(g, n1.Name, 500))
+			hh.W.AddNode(a, sim.NodeOpt{Age: 19 * Q, TaintAge: dp(5 * Q), Annotation: ann("keep")})
+			hh.W.AddNode(a, sim.NodeOpt{Age: 18 * Q, TaintAge: dp(3 * Q)})
+			hh.W.AddNode(a, sim.NodeOpt{Age: 17 * Q})
+			a.Min = a.Desired - 1
 		case "idle":
 			// nothing tainted or annotated yet: the group is nearly idle and escalator taints on its own
 			n1 := hh.W.AddNode(a, sim.NodeOpt{Age: 20 * Q, Annotation: ann("keep")})
@@ -172,6 +251,38 @@ func C10Scenarios(tier string) []*h.Scenario {
 			out = append(out, s)
 		}
 	}
+	// the cloud group has room for exactly one removal and the protected node is the longest tainted;
+	// and the "expired" world with max_nodes below the node count (every scan takes the over-maximum exit)
+	{
+		s := c10Scenario("c10.tight-room", false, 1, "tight-room")
+		s.Slots = 6
+		out = append(out, s)
+		o := c10Scenario("c10.expired.over-max", false, 1, "expired")
+		o.Groups[0].Opts.MaxNodes = 4
+		o.Slots = 5
+		o.Prune = true
+		out = append(out, o)
+	}
+	// a removal call fails in one scan and the node is annotated before the next one
+	for _, world := range []string{"expired", "fresh"} {
+		s := c10Scenario("c10."+world+".removal-fault-then-annotate", false, 1, world)
+		s.Slots = 6
+		s.MaxEventsPerSlot = 1
+		s.Prune = true
+		s.BoundCap = 2
+		inner := s.Events
+		s.Events = func(hh *h.Hist, slot int) []h.Event {
+			var ev []h.Event
+			for _, e := range inner(hh, slot) {
+				if strings.HasPrefix(e.Label, "annotate(") && strings.HasSuffix(e.Label, ",x)") {
+					ev = append(ev, e)
+				}
+			}
+			return ev
+		}
+		s.FaultOps = map[string]bool{sim.OpK8sDelete: true, sim.OpTerminate: true}
+		out = append(out, s)
+	}
 	// API failures while annotated nodes are eligible for reaping (safety predicate only: a twin
 	// would not meet the same fault points)
 	for _, world := range []string{"expired", "fresh"} {
@@ -196,7 +307,7 @@ func init() {
 			"non-trivial = scans holding an annotated node past its grace period or one conjunct from removal; distinct = (slot, class, node, pods, age)",
 		Scenarios: C10Scenarios,
 		Monitors: func() []h.Monitor {
-			return []h.Monitor{AnnotationSafety{}, LikeAnyOther{NewDecisions()}, &NearMiss{Seen: map[string]struct{}{}}}
+			return []h.Monitor{AnnotationSafety{}, LikeAnyOther{NewDecisions()}, &HeldBack{}, &NearMiss{Seen: map[string]struct{}{}}}
 		},
 		Bound: func(tier string) int {
 			if tier == "thorough" {
